@@ -43,7 +43,7 @@ def run(run):
     run.assumptions += ["np.asarray of a tuple of tuples allocates; of an ndarray returns the same object",
                         "np.linspace(a, b, n) includes both a and b iff n >= 2"]
     run.undecided_clauses += ["every tile with a pixel centre inside the box/footprint/chunk is accepted (spherical geometry over floats)"]
-    for r, n in (("C07.R1", 2), ("C07.R2", 2), ("C07.R3", 2), ("C07.R4", 5), ("C07.R5", 6), ("C07.R6", 6), ("C07.R7", 1)):
+    for r, n in (("C07.R1", 2), ("C07.R2", 2), ("C07.R3", 2), ("C07.R4", 5), ("C07.R5", 6), ("C07.R6", 6), ("C07.R7", 1), ("C07.R8", 4)):
         run.floor(r, n)
     _r1_purity(run)
     _r2_pruning(run)
@@ -51,6 +51,16 @@ def run(run):
     _r4_bounds(run)
     _r5_r6_refinement(run)
     _r7_union_filter(run)
+    # "sampling all chunks one after another fills every pixel": each chunk's tile is merged into what earlier chunks stored,
+    # i.e. in updating mode nothing reachable from the sampling workers writes a tile with a plain write_image (C10's rule)
+    from . import C10 as c10
+    from . import common as _common
+    _common.delegate(run, "C07.R3", "C10", c10._r5, only_rules={"C10.R5"}, note="premise: chunk contributions are merged, never overwritten")
+    # filtered sampling walks the tiles of the requested coordinate system (a filter evaluated on the other system's tiles
+    # rejects tiles that hold data): the system reaches every tile generator / pyramid factory on the way
+    from . import toastgeom
+    if toastgeom.coordsys_forwarding(run, "C07.R8") < 4:
+        run.undecided("C07.R8", None, None, "fewer than 4 call sites hand a coordinate system on", kind="floor", construct="<coordsys forwarding>", file="toasty/toast.py")
 
 
 def _r1_purity(run):
